@@ -1,7 +1,7 @@
 (* C11 — fasthash64/fasthash32/murmur3 equal the published algorithms on all inputs.
    Only theorem statements; every proof is `exact <lemma>` from theories/HashProofs.v. *)
 From Coq Require Import ZArith List.
-From Sketchnu Require Import Machine Consts Hashes HashSpec HashProofs.
+From Sketchnu Require Import Machine Consts Hashes HashSpec HashProofs HashProofsMurmur.
 From Sketchnu Require KernelsHashes KernelTieHashes.
 Import ListNotations.
 Open Scope Z_scope.
